@@ -44,6 +44,8 @@ namespace rkcommon {
       FixedArray &operator=(std::vector<T> &rhs);
 
      private:
+      friend struct FixedArrayView<T>;
+
       // We use a shared ptr to actually manage lifetime the data lifetime
       std::shared_ptr<T> array = nullptr;
     };
